@@ -126,6 +126,9 @@ def load_keys(ctx):
     for bits in (384, 521):
         k = ECDSAKey.generate(bits=bits)
         keys.append(("ecdsa-%d-generated" % bits, k.asbytes(), k.asbytes()))
+    for bits in (1024, 1536, 2056):      # RSA keys of several modulus sizes (2056: not a multiple of 64)
+        k = RSAKey.generate(bits)
+        keys.append(("rsa-%d-generated" % bits, k.asbytes(), k.asbytes()))
     for f in sorted(os.listdir(sup)):
         if f.endswith("-cert.pub"):
             blob = base64.b64decode(open(os.path.join(sup, f)).read().split()[1])
@@ -152,7 +155,9 @@ def run(ctx):
     from paramiko.message import Message
     from paramiko.ssh_exception import SSHException
 
-    ctx.rule = ("every key (RSA x2, Ed25519, ECDSA 256/384/521, the bundled RSA/Ed25519/ECDSA certificates, two "
+    ctx.rule = ("signature fields are mostly well-formed blobs string(alg)+string(raw) with raw of length 0, 1, n-2, n-1, n, "
+                "n+1 around the key's full signature length n (RSA: modulus length) and fitting/foreign/garbage algorithm "
+                "names; every key (RSA x2 + generated 1024/1536/2056-bit, Ed25519, ECDSA 256/384/521, the bundled RSA/Ed25519/ECDSA certificates, two "
                 "unknown key types) x every algorithm name (flag-map names, every name in Transport's preferred "
                 "pubkey/hostkey lists, None, near-miss and unicode names) x reply types 0..255, random data 0..300 "
                 "bytes, random recv fragmentation; plus malformed reply streams. distinct = distinct (key, algorithm, "
@@ -219,13 +224,46 @@ def run(ctx):
     def rand_data():
         return rng.randbytes(rng.choice([0, 1, 20, 32, rng.randrange(0, 301)]))
 
-    def rand_sig():
-        return rng.randbytes(rng.choice([0, 1, 64, 83, rng.randrange(0, 400)]))
+    SIG_ALGS = ["ssh-rsa", "rsa-sha2-256", "rsa-sha2-512", "ssh-ed25519", "ecdsa-sha2-nistp256", "ecdsa-sha2-nistp384",
+                "rsa-sha2-256-cert-v01@openssh.com", "ssh-rsa-cert-v01@openssh.com", "rsa-sha2", "ssh-rsax", "", "garbage"]
+
+    def sig_size(ki):
+        """length of a full-size raw signature for the key (modulus length for RSA, incl. RSA certificates)"""
+        ik = agent_keys[ki].inner_key
+        try:
+            return (ik.get_bits() + 7) // 8 if ik is not None else 64
+        except Exception:
+            return 64
+
+    def rand_sig(ki=None):
+        """what the agent puts into the signature field: mostly a well-formed signature blob
+        string(algorithm) + string(raw) with raw around the key's full signature length, sometimes opaque bytes"""
+        if ki is None or rng.random() < 0.3:
+            return rng.randbytes(rng.choice([0, 1, 64, 83, rng.randrange(0, 400)]))
+        n = sig_size(ki)
+        name = keys[ki][0]
+        if rng.random() < 0.7:      # an algorithm fitting the key
+            alg = rng.choice(["ssh-rsa", "rsa-sha2-256", "rsa-sha2-512"]) if "rsa" in name else \
+                "ssh-ed25519" if "ed25519" in name else rng.choice(["ecdsa-sha2-nistp256", "ecdsa-sha2-nistp384"])
+        else:
+            alg = rng.choice(SIG_ALGS)
+        ln = rng.choice([0, 1, 2, n - 2, n - 1, n - 1, n, n, n + 1, rng.randrange(0, n + 8)])
+        raw = rng.randbytes(max(ln, 0))
+        if raw and rng.random() < 0.3:
+            raw = b"\x00" + raw[1:]          # a leading zero byte that must stay where it is
+        blob = sstr(alg.encode()) + sstr(raw)
+        if rng.random() < 0.08:
+            blob += rng.randbytes(rng.randrange(1, 5))    # trailing bytes inside the signature field
+        if rng.random() < 0.05:
+            blob = blob[:rng.randrange(0, len(blob))]     # truncated blob
+        ctx.dist("sig-blob:%s:%s" % ("rsa-key" if "rsa" in name else "other-key",
+                                     "short" if 0 < len(raw) < n else "full" if len(raw) == n else "other"))
+        return blob
 
     # (1) every key x every algorithm: a good reply, a good reply with trailing bytes, some other types
     for ki in range(len(keys)):
         for alg in algs:
-            sig = rand_sig()
+            sig = rand_sig(ki)
             st = framed(b"\x0e" + sstr(sig))
             add(ki, alg, rand_data(), st, rand_caps(len(st)), "type14")
             if ctx.thorough or rng.random() < 0.3:
@@ -239,7 +277,7 @@ def run(ctx):
     for ki in range(len(keys)):
         for t in range(256):
             alg = algs[(t + ki) % len(algs)]
-            payload = rng.choice([b"", sstr(rand_sig()), rng.randbytes(rng.randrange(0, 12))])
+            payload = rng.choice([b"", sstr(rand_sig(ki)), sstr(rand_sig(ki)), rng.randbytes(rng.randrange(0, 12))])
             st = framed(bytes([t]) + payload)
             add(ki, alg, rand_data(), st, rand_caps(len(st)), "type14" if t == 14 else "other-type")
     # (3) malformed streams
@@ -247,7 +285,7 @@ def run(ctx):
     for _ in range(n_bad):
         ki = rng.randrange(len(keys))
         alg = rng.choice(algs)
-        sig = rand_sig()
+        sig = rand_sig(ki)
         t = 14 if rng.random() < 0.6 else rng.randrange(256)
         good = framed(bytes([t]) + sstr(sig))
         mode = rng.randrange(7)
@@ -277,10 +315,10 @@ def run(ctx):
         reqs.append("sign %s %s %s %s %s %s" % (hx(ak.blob), "none" if inner is None else hx(inner), hx(data),
                                                alg_tok(alg), hx(stream), ",".join(map(str, caps)) or "-"))
     # ---------------------------------------------------------------- sequences of requests on ONE connection
-    def gen_reply():
+    def gen_reply(ki):
         """(kind, stream bytes, expected: ('sig', bytes) | 'raise' | None = not judged)"""
         r = rng.random()
-        sig = rand_sig()
+        sig = rand_sig(ki)
         if r < 0.45:
             return "good", framed(b"\x0e" + sstr(sig)), ("sig", sig)
         if r < 0.6:
@@ -300,9 +338,10 @@ def run(ctx):
     for i in range(3000 if ctx.thorough else 500):
         steps = []
         for _ in range(rng.randrange(2, 6)):
-            kind, st, exp = gen_reply()
+            ki_ = rng.randrange(len(keys))
+            kind, st, exp = gen_reply(ki_)
             caps_ = [rng.randrange(1, 9) for _ in range(rng.randrange(0, 6))] if rng.random() < 0.5 else []
-            steps.append((rng.randrange(len(keys)), rng.choice(algs), rand_data(), kind, st, caps_, exp))
+            steps.append((ki_, rng.choice(algs), rand_data(), kind, st, caps_, exp))
         if i == 0:   # oversized announcement followed by a normal exchange
             forged = framed(b"\x0e" + sstr(b"FORGED"))
             steps = [(0, None, b"first", "over-announced", struct.pack(">I", 300000) + forged, [], "raise"),
